@@ -31,6 +31,8 @@ type VerifHooks struct {
 	Spawn func() uint64
 	Start func(tok uint64)
 	End   func()
+	// Drop releases a token from Spawn whose goroutine will never start.
+	Drop func(tok uint64)
 	// NewPipe replaces [os.Pipe].
 	NewPipe func() (VerifFile, io.WriteCloser, error)
 	// WrapStdin adapts a reader given via [StdIO] into the runner's stdin.
@@ -67,6 +69,12 @@ func verifStart(tok uint64) {
 func verifEnd() {
 	if h := VerifSim; h != nil {
 		h.End()
+	}
+}
+
+func verifDrop(tok uint64) {
+	if h := VerifSim; h != nil && h.Drop != nil {
+		h.Drop(tok)
 	}
 }
 
